@@ -132,19 +132,26 @@ func judge(c *Case, o *obs, verbose bool) *verdict {
 	}
 
 	// ---- 1. the dependency graph of the initially registered roots
-	names := make([]string, len(c.Roots))
-	for i, r := range c.Roots {
-		names[i] = r.Name
+	var names []string
+	for _, r := range c.Roots {
+		if !r.Ghost {
+			names = append(names, r.Name)
+		}
 	}
 	g := newGraph(names)
 	selfLoops := 0
 	for _, r := range c.Roots {
+		if r.Ghost {
+			continue // ghosts have no dependencies of their own (generator invariant)
+		}
 		for _, d := range r.Deps {
 			if d == r.Name {
 				selfLoops++
 				continue
 			}
-			g.adj[g.idx[r.Name]][g.idx[d]] = true
+			if j, ok := g.idx[d]; ok {
+				g.adj[g.idx[r.Name]][j] = true
+			}
 		}
 	}
 	cyc := g.shortestCycle() // self-loops were left out of g
